@@ -334,7 +334,7 @@ def run_check(prop: str, tier: str, seed: int, replay: str | None = None) -> int
         rc = 1
     elif inconclusive:
         for r in inconclusive:
-            print(f"INCONCLUSIVE property={prop} reason={r[:1500]}")
+            print(f"INCONCLUSIVE property={prop} reason=" + r[-1500:].replace("\n", " | "))
         rc = 2
     top = {k: v for k, v in counters.items() if not k.startswith("f:")}
     print(
